@@ -347,6 +347,33 @@ std::string Preprocessor::expandMacros(const std::string &line) {
         return false;
     };
 
+    // 文字列範囲を現在の result から計算し直す
+    auto recompute_string_ranges = [&]() {
+        string_ranges.clear();
+        bool in_str = false;
+        bool esc = false;
+        size_t start = 0;
+        for (size_t i = 0; i < result.length(); i++) {
+            if (esc) {
+                esc = false;
+                continue;
+            }
+            if (result[i] == '\\') {
+                esc = true;
+                continue;
+            }
+            if (result[i] == '"') {
+                if (!in_str) {
+                    in_str = true;
+                    start = i;
+                } else {
+                    in_str = false;
+                    string_ranges.push_back({start, i});
+                }
+            }
+        }
+    };
+
     // マクロを展開（複数回パス）
     bool changed = true;
     int max_iterations = 100; // 無限ループ防止
@@ -383,7 +410,8 @@ std::string Preprocessor::expandMacros(const std::string &line) {
                     result.replace(pos, name.length(), macro.body);
                     changed = true;
                     pos += macro.body.length();
-                    // 文字列範囲を再計算
+                    // 文字列範囲を再計算（置換のたびに行う）
+                    recompute_string_ranges();
                     break;
                 } else {
                     pos += name.length();
